@@ -406,6 +406,77 @@ pub fn call(env: &mut Env, c: &Value) -> Value {
             _ => panic!("harness: no registry"),
         },
         "collect" => okv(families_json(&collector_of(env, s(c, "obj")).collect())),
+        // ------------------------------------------------------------ scale: many calls / many children without giant inputs
+        // {"op":"repeat","n":N,"calls":[...]} runs the inner calls N times with "$i" in every string replaced by the round number
+        "repeat" => {
+            let n = c["n"].as_u64().unwrap_or(0);
+            let inner = c["calls"].as_array().cloned().unwrap_or_default();
+            fn subst(v: &Value, i: u64) -> Value {
+                match v {
+                    Value::String(x) if x.contains("$i") => Value::String(x.replace("$i", &i.to_string())),
+                    Value::Array(a) => Value::Array(a.iter().map(|x| subst(x, i)).collect()),
+                    Value::Object(o) => Value::Object(o.iter().map(|(k, x)| (k.clone(), subst(x, i))).collect()),
+                    _ => v.clone(),
+                }
+            }
+            let mut bad = 0u64;
+            let mut first_bad = Value::Null;
+            for i in 0..n {
+                for ic in &inner {
+                    let r = call(env, &subst(ic, i));
+                    if r.get("ok").is_none() {
+                        bad += 1;
+                        if first_bad.is_null() {
+                            first_bad = json!({"round": i, "call": ic["op"], "result": r});
+                        }
+                    }
+                }
+            }
+            okv(json!({"rounds": n, "not_ok": bad, "first_not_ok": first_bad}))
+        }
+        // summary of what a collector or registry exposes: per family the number of samples, of distinct label tuples, the total
+        // and the extreme sample values (histograms: sample counts), and whether the samples are in lexicographic label order
+        "summary" => {
+            let fams = match env.get(s(c, "obj")) {
+                Some(Slot::Reg(r)) => r.gather(),
+                _ => collector_of(env, s(c, "obj")).collect(),
+            };
+            let mut out = vec![];
+            for mf in &fams {
+                let t = mf.get_field_type();
+                let mut tuples = std::collections::HashSet::new();
+                let (mut total, mut mn, mut mx) = (0.0f64, f64::INFINITY, f64::NEG_INFINITY);
+                let mut sorted = true;
+                let mut prev: Option<Vec<String>> = None;
+                let mut hsum = 0.0f64;
+                let mut bucket_total = 0u64;
+                for m in mf.get_metric() {
+                    let vals: Vec<String> = m.get_label().iter().map(|l| l.value().to_string()).collect();
+                    if let Some(p) = &prev {
+                        if *p > vals { sorted = false; }
+                    }
+                    prev = Some(vals.clone());
+                    tuples.insert(vals);
+                    let v = match t {
+                        proto::MetricType::COUNTER => crate::pm::counter_value(m),
+                        proto::MetricType::GAUGE => crate::pm::gauge_value(m),
+                        proto::MetricType::HISTOGRAM => {
+                            let h = m.get_histogram();
+                            hsum += h.get_sample_sum();
+                            bucket_total += h.get_bucket().last().map(|b| b.cumulative_count()).unwrap_or(0);
+                            h.get_sample_count() as f64
+                        }
+                        _ => 0.0,
+                    };
+                    total += v;
+                    if v < mn { mn = v; }
+                    if v > mx { mx = v; }
+                }
+                out.push(json!({"name": mf.get_name(), "type": crate::pm::type_name(t), "samples": mf.get_metric().len(), "distinct": tuples.len(),
+                                "total": fnum(total), "min": fnum(mn), "max": fnum(mx), "sorted": sorted, "hist_sum": fnum(hsum), "last_bucket_total": bucket_total}));
+            }
+            okv(Value::Array(out))
+        }
         "descs" => {
             if let Some(Slot::Desc(d)) = env.get(s(c, "obj")) {
                 return okv(json!([desc_json(d)]));
